@@ -25,7 +25,7 @@ for key in sorted(os.listdir('/verif/seeded')):
         dt=time.time()-t0
     finally:
         sh('git -C /repo checkout -- . && git -C /repo clean -fdq')
-    labels=sorted(set(re.findall(r'harness=(\S+) label=(\S+)',o)))
+    labels=sorted(set(re.findall(r'^  harness=(\S+) label=(\S+) kind=',o,re.M)))
     meta['caught_by']={'command':'./check %s %s'%(pid,tier),'exit':rc,'seconds':round(dt),'violations':['%s/%s'%l for l in labels][:8],'caught':rc==1}
     json.dump(meta,open(d+'/meta.json','w'),indent=1)
     print(key,'exit=%d'%rc,'%ds'%dt,[l[1] for l in labels][:3],flush=True)
